@@ -2,76 +2,105 @@
 (* C19, name decoding.  Generator + Impl specification of DnsMessage::decodeNameWithLoopDetection          *)
 (* (include/iora/network/dns/dns_message.hpp).                                                              *)
 (*                                                                                                          *)
-(* Init enumerates EVERY layout of N cells (see DnsNameOps) and every cut; the actions walk the layout one   *)
-(* decision of the decoder at a time (bounds check before each read, visited set of pointer targets, label   *)
-(* and name limits).  A terminal state (res # "run") is one conformance case: the invariant Emit prints it   *)
-(* together with the result the Impl model predicts; the check renders it to bytes, runs the real decoder    *)
-(* (ASan+UBSan, exact-size heap buffer) and TLC validates the recorded results against DnsNameTrace.tla.      *)
+(* Two families of layouts (constant Family):                                                               *)
+(*   "all"    Init enumerates EVERY layout of N cells (see DnsNameOps) and every cut; decoding starts at     *)
+(*            cell 1.  Breadth: every combination of label / terminator / junk / pointer target.             *)
+(*   "chain"  generated, one layout per k in Depths (x closed or not): the compression chain a server        *)
+(*            produces for a deep subdomain tree,                                                            *)
+(*               T0 = Label End,   Ti = Label Ptr(-> Ti-1)  for i = 1..k,   decoding starts at Tk,            *)
+(*            so that k pointers are followed and the name has k + 1 one-octet labels (k = 126: 127 labels,  *)
+(*            255 octets on the wire - the longest chain a legal name can need).  "closed": the terminator   *)
+(*            of T0 is replaced by a pointer to Tk - a loop of k + 1 pointers, which must be an error.       *)
+(*            Depth: the number of jumps is no criterion of well-formedness.                                 *)
+(* The actions walk the layout one decision of the decoder at a time (bounds check before each read, visited *)
+(* set of pointer targets, label and name limits).  A terminal state (res # "run") is one conformance case:  *)
+(* the invariant Emit prints it together with the result the Impl model predicts; the check renders it to    *)
+(* bytes, runs the real decoder (ASan+UBSan, exact-size buffers) and TLC validates the recorded results      *)
+(* against DnsNameTrace.tla.                                                                                 *)
 (* Invariants: Refines (the Impl result is one the Abs classification allows) and Terminates.                *)
 (* Deviations (default FALSE) make the specification able to see the corresponding code defects:            *)
 (*   Dev_NoVisited        the visited-pointer set is not consulted        -> walks for ever on a loop         *)
 (*   Dev_PtrBoundOffByOne pointer > size instead of pointer >= size       -> pointer == size accepted         *)
+(*   Dev_MaxPointerJumps  a "hardening" cap: error once more than JumpCap pointers were followed for one     *)
+(*                        name -> rejects well-formed deep chains (family "chain", k > JumpCap)               *)
 EXTENDS DnsNameOps, TLC, Json
 
-CONSTANTS N, Cuts, NameLimit, Dev_NoVisited, Dev_PtrBoundOffByOne
+CONSTANTS Family, N, Cuts, Depths, NameLimit, Dev_NoVisited, Dev_PtrBoundOffByOne, Dev_MaxPointerJumps
 
-VARIABLES cells, cut, off, visited, labels, total, jumped, orig, steps, res
-vars == <<cells, cut, off, visited, labels, total, jumped, orig, steps, res>>
+JumpCap == 10
 
-StepBound == N * N + 2 * N + 2
-size == Size(cells, cut)
+VARIABLES cells, offs, cut, start, off, visited, labels, total, jumped, orig, steps, res
+vars == <<cells, offs, cut, start, off, visited, labels, total, jumped, orig, steps, res>>
 
-Init == /\ cells \in [1..N -> Codes(N)]
-        /\ cut \in Cuts
-        /\ off = 0 /\ visited = {} /\ labels = <<>> /\ total = 0 /\ jumped = FALSE /\ orig = 0 /\ steps = 0
+StepBound == Len(cells) * Len(cells) + 2 * Len(cells) + 2
+size == SizeO(offs, cut)
+
+\* T0 occupies cells 1, 2; Ti cells 2i + 1 (label), 2i + 2 (pointer to the label of Ti-1 = cell 2i - 1)
+Chain(k, closed) == [j \in 1..(2 * k + 2) |->
+                        IF j % 2 = 1 THEN 1
+                        ELSE IF j = 2 THEN (IF closed THEN 1000 + 2 * k + 1 ELSE 0)
+                        ELSE 1000 + j - 3]
+
+Init == /\ \/ /\ Family = "all" /\ cells \in [1..N -> Codes(N)] /\ cut \in Cuts /\ start = 1
+           \/ /\ Family = "chain" /\ cut = 0
+              /\ \E k \in Depths, closed \in BOOLEAN : cells = Chain(k, closed) /\ start = 2 * k + 1
+        /\ offs = Offs(cells)
+        /\ off = offs[start]
+        /\ visited = {} /\ labels = <<>> /\ total = 0 /\ jumped = FALSE /\ orig = 0 /\ steps = 0
         /\ res = "run"
 
 Running == res = "run" /\ steps < StepBound
-Cur == cells[CellAt(cells, off)]
+Cur == cells[CellAtO(offs, off)]
+Keep == UNCHANGED <<cells, offs, cut, start>>
 Finish(r) == /\ res' = r /\ steps' = steps + 1
-             /\ UNCHANGED <<cells, cut, off, visited, labels, total, jumped, orig>>
+             /\ UNCHANGED <<off, visited, labels, total, jumped, orig>> /\ Keep
 
 \* while (offset < size) fails: the loop simply ends, the name read so far is returned (no terminator needed)
 OffEnd == Running /\ off >= size /\ Finish("ok")
 
+PtrOk == Running /\ off < size /\ IsPtr(Cur) /\ off + 2 <= size
 PtrTruncated == Running /\ off < size /\ IsPtr(Cur) /\ off + 2 > size /\ Finish("err")          \* checkBounds(offset, 2)
-PtrRange == /\ Running /\ off < size /\ IsPtr(Cur) /\ off + 2 <= size
-            /\ LET t == Target(cells, cut, Cur) IN IF Dev_PtrBoundOffByOne THEN t > size ELSE t >= size
+PtrRange == /\ PtrOk
+            /\ LET t == TargetO(offs, cut, Cur) IN IF Dev_PtrBoundOffByOne THEN t > size ELSE t >= size
             /\ Finish("err")
-PtrLoop == /\ Running /\ off < size /\ IsPtr(Cur) /\ off + 2 <= size
-           /\ LET t == Target(cells, cut, Cur) IN t < size /\ t \in visited /\ ~Dev_NoVisited
+PtrLoop == /\ PtrOk
+           /\ LET t == TargetO(offs, cut, Cur) IN t < size /\ t \in visited /\ ~Dev_NoVisited
            /\ Finish("err")
-PtrFollow == /\ Running /\ off < size /\ IsPtr(Cur) /\ off + 2 <= size
-             /\ LET t == Target(cells, cut, Cur) IN
-                /\ IF Dev_PtrBoundOffByOne THEN t <= size ELSE t < size
-                /\ (t \notin visited \/ Dev_NoVisited)
-                /\ visited' = visited \cup {t}
-                /\ off' = t
+Followable == LET t == TargetO(offs, cut, Cur) IN
+              /\ IF Dev_PtrBoundOffByOne THEN t <= size ELSE t < size
+              /\ (t \notin visited \/ Dev_NoVisited)
+\* the deviation: a cap on the number of pointers followed for one name
+PtrCap == /\ PtrOk /\ Followable /\ Dev_MaxPointerJumps /\ Cardinality(visited) >= JumpCap
+          /\ Finish("err")
+PtrFollow == /\ PtrOk /\ Followable /\ ~(Dev_MaxPointerJumps /\ Cardinality(visited) >= JumpCap)
+             /\ LET t == TargetO(offs, cut, Cur) IN visited' = visited \cup {t} /\ off' = t
              /\ jumped' = TRUE /\ orig' = IF jumped THEN orig ELSE off + 2
              /\ steps' = steps + 1
-             /\ UNCHANGED <<cells, cut, labels, total, res>>
+             /\ UNCHANGED <<labels, total, res>> /\ Keep
 EndOfName == /\ Running /\ off < size /\ Cur = CE
              /\ off' = off + 1 /\ res' = "ok" /\ steps' = steps + 1
-             /\ UNCHANGED <<cells, cut, visited, labels, total, jumped, orig>>
+             /\ UNCHANGED <<visited, labels, total, jumped, orig>> /\ Keep
 LabelTooLong == Running /\ off < size /\ Cur = CJ /\ Finish("err")
 LabelTruncated == Running /\ off < size /\ IsLabel(Cur) /\ off + 1 + LabLen(Cur) > size /\ Finish("err")
 Label == /\ Running /\ off < size /\ IsLabel(Cur) /\ off + 1 + LabLen(Cur) <= size
-         /\ labels' = Append(labels, <<CellAt(cells, off), LabLen(Cur)>>)
+         /\ labels' = Append(labels, <<Lid(CellAtO(offs, off)), LabLen(Cur)>>)
          /\ off' = off + 1 + LabLen(Cur)
          /\ total' = total + 1 + LabLen(Cur)
          /\ res' = IF total + 1 + LabLen(Cur) > NameLimit THEN "err" ELSE "run"
          /\ steps' = steps + 1
-         /\ UNCHANGED <<cells, cut, visited, jumped, orig>>
-Hang == res = "run" /\ steps >= StepBound /\ res' = "hang" /\ UNCHANGED <<cells, cut, off, visited, labels, total, jumped, orig, steps>>
+         /\ UNCHANGED <<visited, jumped, orig>> /\ Keep
+Hang == res = "run" /\ steps >= StepBound /\ res' = "hang"
+        /\ UNCHANGED <<off, visited, labels, total, jumped, orig, steps>> /\ Keep
 
-Next == OffEnd \/ PtrTruncated \/ PtrRange \/ PtrLoop \/ PtrFollow \/ EndOfName \/ LabelTooLong \/ LabelTruncated
-        \/ Label \/ Hang
+Next == OffEnd \/ PtrTruncated \/ PtrRange \/ PtrLoop \/ PtrCap \/ PtrFollow \/ EndOfName \/ LabelTooLong
+        \/ LabelTruncated \/ Label \/ Hang
 Spec == Init /\ [][Next]_vars
 
 EndOff == IF jumped THEN orig ELSE off
-Refines == res # "run" => Allowed(AbsClass(cells, cut), res, labels, EndOff)
+Refines == res # "run" => Allowed(AbsClass(cells, cut, start), res, labels, EndOff)
 Terminates == res # "hang"
 \* one line per terminal state = one conformance case with the result the Impl model predicts and the Abs class
-Emit == res = "run" \/ PrintT(ToJson([cut |-> cut, cells |-> cells, res |-> res, name |-> labels, end |-> EndOff,
-                                        cls |-> AbsClass(cells, cut).c]))
+Emit == res = "run" \/ PrintT(ToJson([cut |-> cut, start |-> start, cells |-> cells, res |-> res, name |-> labels,
+                                        end |-> EndOff, cls |-> AbsClass(cells, cut, start).c,
+                                        jumps |-> Cardinality(visited)]))
 =============================================================================
